@@ -308,14 +308,20 @@ def run(ctx):
                 ameta.append((d, repr(s), a1, a2))
                 ctx.count("acceptance_table")
     # empty arrays
-    for arr in (np.array([]), np.zeros((0, 3)), np.array([], dtype=str), []):
+    for arr in (np.array([]), np.zeros((0, 3)), np.zeros((0, 1)), np.empty((0, 2), dtype=object), np.array([], dtype=str).reshape(0, 2), np.array([], dtype=str), []):
         for s in (NAN, -1, "x", None):
             try:
                 r = lab.is_unlabeled(arr, missing_label=s)
-                if np.asarray(r).size != 0 or np.asarray(r).dtype != bool:
-                    ctx.violation("label_predicates", "empty", repr(r), {"arr": repr(arr), "sentinel": repr(s)})
-                if len(lab.unlabeled_indices(arr, missing_label=s)) or len(lab.labeled_indices(arr, missing_label=s)):
-                    ctx.violation("label_predicates", "empty", "indices not empty", {"arr": repr(arr), "sentinel": repr(s)})
+                r2 = lab.is_labeled(arr, missing_label=s)
+                shp = np.asarray(arr).shape
+                if np.asarray(r).size != 0 or np.asarray(r).dtype != bool or np.asarray(r).shape != shp or np.asarray(r2).shape != shp:
+                    ctx.violation("label_predicates", "empty", f"is_unlabeled / is_labeled of an array of shape {shp} have shapes {np.asarray(r).shape} / {np.asarray(r2).shape}",
+                                  {"arr": repr(arr), "sentinel": repr(s)}, what=f"is_unlabeled / is_labeled do not keep the shape {shp} of an empty label array")
+                ui_, li_ = np.asarray(lab.unlabeled_indices(arr, missing_label=s)), np.asarray(lab.labeled_indices(arr, missing_label=s))
+                exp_shape = (0,) if len(shp) == 1 else (0, len(shp))
+                if len(ui_) or len(li_) or ui_.shape != exp_shape or li_.shape != exp_shape:
+                    ctx.violation("label_predicates", "empty", f"(un)labeled_indices of an empty array of shape {shp} have shapes {ui_.shape} / {li_.shape}, expected {exp_shape}",
+                                  {"arr": repr(arr), "sentinel": repr(s)}, what="(un)labeled_indices of an empty label array are not an empty index list of the right width")
                 ctx.count("empty_arrays")
             except Exception as e:
                 ctx.violation("label_predicates", "exception_empty", repr(e), {"arr": repr(arr), "sentinel": repr(s)},
